@@ -150,7 +150,7 @@ func build(sp *spec, ids []int64, kind int) (traverse.Graph, graph.Graph) {
 				g.SetWeightedEdge(simple.WeightedEdge{F: simple.Node(ids[i]), T: simple.Node(ids[j]), W: w})
 			})
 			base.g = g
-		base.freeze()
+			base.freeze()
 			if kind == kTrav {
 				return travW{base, g}, nil
 			}
@@ -198,7 +198,7 @@ func build(sp *spec, ids []int64, kind int) (traverse.Graph, graph.Graph) {
 				g.SetWeightedLine(g.NewWeightedLine(multi.Node(ids[i]), multi.Node(ids[j]), b))
 			})
 			base.g = g
-		base.freeze()
+			base.freeze()
 			o := ordWDir{ordDir{base, g}, g}
 			return o, o
 		}
@@ -230,7 +230,7 @@ func build(sp *spec, ids []int64, kind int) (traverse.Graph, graph.Graph) {
 				g.SetEdge(simple.Edge{F: simple.Node(ids[i]), T: simple.Node(ids[j])})
 			})
 			base.g = g
-		base.freeze()
+			base.freeze()
 			if kind == kUTrav {
 				return trav{base}, nil
 			}
@@ -266,7 +266,7 @@ func build(sp *spec, ids []int64, kind int) (traverse.Graph, graph.Graph) {
 				g.SetLine(g.NewLine(multi.Node(ids[i]), multi.Node(ids[j])))
 			})
 			base.g = g
-		base.freeze()
+			base.freeze()
 			o := ordDir{base, g}
 			return o, o
 		}
@@ -376,7 +376,7 @@ type ordWDir struct {
 	w graph.Weighted
 }
 
-func (o ordWDir) Weight(xid, yid int64) (float64, bool)           { return o.w.Weight(xid, yid) }
+func (o ordWDir) Weight(xid, yid int64) (float64, bool)          { return o.w.Weight(xid, yid) }
 func (o ordWDir) WeightedEdge(uid, vid int64) graph.WeightedEdge { return o.w.WeightedEdge(uid, vid) }
 
 // ordWUnd is a weighted undirected ordered graph.
@@ -385,7 +385,7 @@ type ordWUnd struct {
 	w graph.WeightedUndirected
 }
 
-func (o ordWUnd) Weight(xid, yid int64) (float64, bool)           { return o.w.Weight(xid, yid) }
+func (o ordWUnd) Weight(xid, yid int64) (float64, bool)          { return o.w.Weight(xid, yid) }
 func (o ordWUnd) WeightedEdge(uid, vid int64) graph.WeightedEdge { return o.w.WeightedEdge(uid, vid) }
 func (o ordWUnd) EdgeBetween(xid, yid int64) graph.Edge          { return o.w.WeightedEdgeBetween(xid, yid) }
 func (o ordWUnd) WeightedEdgeBetween(xid, yid int64) graph.WeightedEdge {
@@ -403,8 +403,8 @@ type travW struct {
 	w graph.Weighted
 }
 
-func (t travW) From(id int64) graph.Nodes              { return t.o.From(id) }
-func (t travW) Edge(uid, vid int64) graph.Edge         { return t.o.Edge(uid, vid) }
+func (t travW) From(id int64) graph.Nodes             { return t.o.From(id) }
+func (t travW) Edge(uid, vid int64) graph.Edge        { return t.o.Edge(uid, vid) }
 func (t travW) Weight(xid, yid int64) (float64, bool) { return t.w.Weight(xid, yid) }
 
 var (
